@@ -83,6 +83,25 @@ func genC05(c *Ctx, emit func(class, op string)) {
 	for i := 0; i < c.N(400, 20000); i++ {
 		emit("display-arithmetic", fmt.Sprintf("disp4 %d", coordVal(r)))
 	}
+	// byte strings shorter than a leader plus CRC handed straight to the decoders (the length
+	// arithmetic must not wrap): every length 0..8, prefixes of well-formed frames and random bytes
+	for _, six := range []bool{false, true} {
+		name, typ := "base5", int64(1005)
+		if six {
+			name, typ = "base6", 1006
+		}
+		vals := []int64{typ, 1, 2, 0, coordVal(r), 0, coordVal(r), 0, coordVal(r)}
+		if six {
+			vals = append(vals, 1234)
+		}
+		full := mkFrame(encodeBase(vals))
+		for k := 0; k <= 8; k++ {
+			emit("shorter-than-leader-and-crc", fmt.Sprintf("%s %s", name, hx(full[:k])))
+			b := make([]byte, k)
+			r.Read(b)
+			emit("shorter-than-leader-and-crc", fmt.Sprintf("%s %s", name, hx(b)))
+		}
+	}
 	for i := 0; i < c.N(600, 20000); i++ {
 		six := i%2 == 1
 		typ := int64(1005)
